@@ -129,8 +129,10 @@ var kinds = ev.Kinds{"tenants": func(t ev.TB, raw json.RawMessage) {
 func TestReplayFile(t *testing.T) { ev.ReplayFile(t, kinds) }
 func TestRegress(t *testing.T)    { ev.Regress(t, kinds, "testdata/regress") }
 
-var filters = []string{"#", "+/#", "+/x", "a/#", "a/x", "+", "tenantA/#", "_default/#", "tenantB/a/x"}
-var topics = []string{"a/x", "a", "b/x", "tenantA/a", "tenantB/a/x", "x"}
+// filters and topics include names of other tenants, '.' and '..' levels (ordinary level
+// strings in MQTT), and empty levels
+var filters = []string{"#", "+/#", "+/x", "a/#", "a/x", "+", "tenantA/#", "_default/#", "tenantB/a/x", "../tenantB/#", "../#", "./#", "a//x", "a/", "../tenantA/a/x"}
+var topics = []string{"a/x", "a", "b/x", "tenantA/a", "tenantB/a/x", "x", "../tenantB/a/x", "a//x", "./a/x", "a/", "../tenantA/a"}
 var mountNames = []string{"tenantA", "tenantB", ""}
 
 func genCase(t *rapid.T, nodeFailure bool) Case {
